@@ -12,7 +12,7 @@ import (
 )
 
 func init() {
-	register("C13", 40, "Decided (for every path of the current source): (R1) a chunk is parked only while the relay mutex is held, on the handshaking edge of a status load made under that same lock; parking/popping/line-reading on the handshake buffers happens only in the designated functions; (R2) the flush drains both buffers and then changes the status inside one lock-held region, the partially consumed chunk's remainder is returned before the queue; (R3) the status is set to handshaking before the handshake worker starts and before the trigger chunk is forwarded; (R4) the status word has exactly three writers; (R5) in each of the four pumps every non-empty chunk is parked or sent on its own direction's channel, never both, never neither, and each channel's consumer writes to the matching side; (R6) every pump reads into a fresh buffer per iteration; (R7) every exit of the handshake worker flushes. Not decided: exhaustive interleavings, sufficiency of the lock discipline (that is model checking).",
+	register("C13", 40, "Decided (for every path of the current source): (R1) a chunk is parked only while the relay mutex is held, on the handshaking edge of a status load made under that same lock; parking/popping/line-reading on the handshake buffers happens only in the designated functions; (R2) the flush drains both buffers and then changes the status inside one lock-held region, the partially consumed chunk's remainder is returned before the queue; (R3) the status is set to handshaking before the handshake worker starts and before the trigger chunk is forwarded; (R4) the status word has exactly three writers; (R5) in each of the four pumps every non-empty chunk is parked or sent on its own direction's channel, never both, never neither, and each channel's consumer writes to the matching side; (R6) every pump reads into a fresh buffer per iteration; (R7) every exit of the handshake worker flushes. Not decided: exhaustive interleavings, sufficiency of the lock discipline (that is model checking). Added to R3/R5: the trigger is recorded before the worker starts; a pump that read the status as handshaking offers the chunk to the parking function before any forward; pumps end only on EOF.",
 		func(c *Ctx) {
 			c.run("C13-R1", "PAIR+GUARD-DOM: park under the lock, after re-reading the status", c13R1)
 			c.run("C13-R2", "PAIR+ORDER: flush then switch, under the same lock", c13R2)
